@@ -60,3 +60,83 @@ Proof.
   rewrite pv_h_nonempty; rewrite trim_end_plain by exact Hend; [|destruct base; discriminate].
   now rewrite dir_seg_app by exact Hs.
 Qed.
+
+(* ---- numbers ---- *)
+From Coq Require Import NArith Lia.
+Open Scope N_scope.
+Lemma to_digits_acc : forall fuel b n acc, to_digits fuel b n acc = to_digits fuel b n [] ++ acc.
+Proof.
+  induction fuel as [|f IH]; intros b n acc; cbn [to_digits]; [reflexivity|].
+  set (d := (48 + N.to_nat (n mod b))%nat).
+  destruct (n / b =? 0); [reflexivity|]. rewrite (IH b (n / b) (d :: acc)), (IH b (n / b) [d]), <- app_assoc. reflexivity.
+Qed.
+Lemma value_of_app b l1 l2 a : value_of b (l1 ++ l2) a = value_of b l2 (value_of b l1 a).
+Proof. revert a. induction l1 as [|d l1 IH]; intros a; cbn [app value_of]; [reflexivity|apply IH]. Qed.
+
+Lemma digit_back b n : 2 <= b -> b <= 10 -> N.of_nat (48 + N.to_nat (n mod b) - 48) = n mod b.
+Proof.
+  intros _ _. assert (H : (48 + N.to_nat (n mod b) - 48)%nat = N.to_nat (n mod b)) by (generalize (N.to_nat (n mod b)); intros x; lia).
+  rewrite H. apply N2Nat.id.
+Qed.
+
+Lemma to_digits_value : forall fuel b n, 2 <= b -> b <= 10 -> n < 2 ^ N.of_nat fuel ->
+  value_of b (to_digits fuel b n []) 0 = n.
+Proof.
+  induction fuel as [|f IH]; intros b n Hb1 Hb2 Hn.
+  - cbn in Hn. assert (n = 0) by lia. subst. reflexivity.
+  - cbn [to_digits]. destruct (n / b =? 0) eqn:E.
+    + apply N.eqb_eq in E. cbn [value_of]. rewrite digit_back by assumption.
+      pose proof (N.div_mod n b ltac:(lia)) as D. rewrite E in D. lia.
+    + rewrite to_digits_acc, value_of_app. cbn [value_of]. rewrite digit_back by assumption.
+      rewrite IH; [|assumption|assumption|].
+      * pose proof (N.div_mod n b ltac:(lia)) as D. lia.
+      * rewrite Nat2N.inj_succ, N.pow_succ_r' in Hn.
+        apply N.div_lt_upper_bound; [lia|]. nia.
+Qed.
+
+Lemma log2_bound n : n < 2 ^ N.of_nat (S (N.to_nat (N.log2 n))).
+Proof.
+  rewrite Nat2N.inj_succ, N2Nat.id. destruct n as [|p]; [cbn; lia|].
+  apply N.log2_spec. lia.
+Qed.
+
+Theorem render_num_value b n : 2 <= b -> b <= 10 -> value_of b (render_num b n) 0 = n.
+Proof. intros H1 H2. unfold render_num. apply to_digits_value; [assumption|assumption|apply log2_bound]. Qed.
+
+(* no padding: the first digit of a non-zero number is not 0, and zero is the single digit 0 *)
+Lemma to_digits_first : forall fuel b n, 2 <= b -> 0 < n -> n < 2 ^ N.of_nat fuel ->
+  exists d rest, to_digits fuel b n [] = d :: rest /\ d <> 48%nat.
+Proof.
+  induction fuel as [|f IH]; intros b n Hb Hp Hn.
+  - cbn in Hn. lia.
+  - cbn [to_digits]. destruct (n / b =? 0) eqn:E.
+    + apply N.eqb_eq in E. eexists _, []. split; [reflexivity|].
+      pose proof (N.div_mod n b ltac:(lia)) as D. rewrite E in D. assert (Hm : n mod b <> 0) by lia.
+      assert (Hz : N.to_nat (n mod b) <> 0%nat). { intros Hz. apply Hm. rewrite <- (N2Nat.id (n mod b)), Hz. reflexivity. }
+      revert Hz. generalize (N.to_nat (n mod b)). intros x Hx. lia.
+    + apply N.eqb_neq in E. rewrite to_digits_acc.
+      destruct (IH b (n / b) Hb (proj1 (N.neq_0_lt_0 _) E)) as (d & rest & -> & Hd).
+      * rewrite Nat2N.inj_succ, N.pow_succ_r' in Hn. apply N.div_lt_upper_bound; [lia|]. nia.
+      * eexists d, _. split; [reflexivity|exact Hd].
+Qed.
+Theorem render_num_canonical b n : 2 <= b ->
+  (n = 0 -> render_num b n = [48%nat]) /\
+  (0 < n -> exists d rest, render_num b n = d :: rest /\ d <> 48%nat).
+Proof.
+  intros Hb. split.
+  - intros ->. unfold render_num. change (N.to_nat (N.log2 0)) with 0%nat. cbn [to_digits]. rewrite N.mod_0_l by lia. rewrite N.div_0_l by lia. reflexivity.
+  - intros Hp. unfold render_num. apply to_digits_first; [assumption|assumption|apply log2_bound].
+Qed.
+
+(* every character is a digit of the base *)
+Lemma to_digits_digits : forall fuel b n acc, 2 <= b -> b <= 10 -> Forall (fun d => (48 <= d)%nat /\ N.of_nat (d - 48) < b) acc ->
+  Forall (fun d => (48 <= d)%nat /\ N.of_nat (d - 48) < b) (to_digits fuel b n acc).
+Proof.
+  induction fuel as [|f IH]; intros b n acc Hb Hb2 Ha; cbn [to_digits]; [exact Ha|].
+  assert (Hd : (48 <= 48 + N.to_nat (n mod b))%nat /\ N.of_nat (48 + N.to_nat (n mod b) - 48) < b).
+  { split; [generalize (N.to_nat (n mod b)); intros x; lia|]. rewrite (digit_back b n) by lia. apply N.mod_lt. lia. }
+  destruct (n / b =? 0); [constructor; assumption|]. apply IH; [assumption|assumption|constructor; assumption].
+Qed.
+Theorem render_num_digits b n : 2 <= b -> b <= 10 -> Forall (fun d => (48 <= d)%nat /\ N.of_nat (d - 48) < b) (render_num b n).
+Proof. intros Hb Hb2. unfold render_num. apply to_digits_digits; [assumption|assumption|constructor]. Qed.
+Close Scope N_scope.
